@@ -294,6 +294,11 @@ func (t *template) Load(filename string) Template {
 	tpl.frontMatter, tpl.templateBytes, tpl.err = t.vue.loader.loadFragment(filename)
 	tpl.filename = filename
 	tpl.filenameLoaded = true
+	if tpl.err != nil {
+		// The file is missing or invalid now: a previously cached version must not
+		// be served again later (see loadCachedWithFrontMatter).
+		t.vue.evictTemplate(filename)
+	}
 
 	for k, v := range tpl.frontMatter {
 		tpl.Assign(k, v)
